@@ -668,3 +668,124 @@ func resolveLocal(v ssa.Value) ssa.Value {
 	}
 	return val
 }
+
+const textDbEnumerate = "R-C14-enumerate: the database table is enumerated by ranging over it; an index loop over the table (a lookup with a loop counter as key) must cover exactly the indexes the guarded creator admits (0..max from its range check) — FLUSHALL, the saver and every 'all databases' helper reach every database"
+
+// ruleC14Enumerate: range check of the creator vs. bounds of index loops over the table.
+func ruleC14Enumerate(c *Ctx) {
+	c.S.Rule("R-C14-enumerate", textDbEnumerate, 2)
+	fDbs := c.Field("dataStoreSet", "dbs")
+	if fDbs == nil {
+		c.S.Undecided("R-C14-enumerate", "anchor", "-", "dataStoreSet.dbs not found")
+		return
+	}
+	// the creator's admitted maximum: in a function that inserts into the table with a parameter as key, a comparison
+	// of that parameter with a constant (index > K  or index >= K)
+	maxIdx, haveMax := int64(-1), false
+	for _, fn := range c.SrcFuncs() {
+		for _, in := range instrsOf(fn) {
+			mu, ok := in.(*ssa.MapUpdate)
+			if !ok {
+				continue
+			}
+			if _, f := loadedField(mu.Map); f != fDbs {
+				continue
+			}
+			p, ok := mu.Key.(*ssa.Parameter)
+			if !ok {
+				continue
+			}
+			for _, in2 := range instrsOf(fn) {
+				bo, ok := in2.(*ssa.BinOp)
+				if !ok || bo.X != ssa.Value(p) {
+					continue
+				}
+				k, isC := constInt(bo.Y)
+				if !isC {
+					continue
+				}
+				switch bo.Op {
+				case token.GTR:
+					maxIdx, haveMax = k, true
+				case token.GEQ:
+					maxIdx, haveMax = k-1, true
+				}
+			}
+		}
+	}
+	if !haveMax {
+		c.S.Undecided("R-C14-enumerate", "creator-range-check", "-", "no range check (index > K) found in the function that inserts into the table")
+		return
+	}
+	c.S.OK("R-C14-enumerate", "creator-range-check", "-", fmt.Sprintf("the creator admits indexes 0..%d", maxIdx))
+	for _, fn := range c.SrcFuncs() {
+		n := 0
+		for _, in := range instrsOf(fn) {
+			var m, key ssa.Value
+			switch x := in.(type) {
+			case *ssa.Lookup:
+				m, key = x.X, x.Index
+			default:
+				continue
+			}
+			if _, f := loadedField(m); f != fDbs {
+				continue
+			}
+			if r, isRange := m.(*ssa.Range); isRange {
+				_ = r
+				continue
+			}
+			n++
+			k := fmt.Sprintf("%s:lookup#%d", fnName(fn), n)
+			phi, isPhi := key.(*ssa.Phi)
+			if !isPhi || !blockInCycle(in.Block()) {
+				c.S.Trivial("R-C14-enumerate", k, c.Pos(c.InstrPos(in)), "a single lookup, not an enumeration")
+				continue
+			}
+			// loop counter: find the bound
+			last, found := int64(0), false
+			start, haveStart := int64(0), false
+			for _, e := range phi.Edges {
+				if v, isC := constInt(e); isC {
+					start, haveStart = v, true
+				}
+			}
+			for _, r := range referrers(phi) {
+				bo, ok := r.(*ssa.BinOp)
+				if !ok || bo.X != ssa.Value(phi) {
+					continue
+				}
+				kk, isC := constInt(bo.Y)
+				if !isC {
+					continue
+				}
+				switch bo.Op {
+				case token.LSS:
+					last, found = kk-1, true
+				case token.LEQ:
+					last, found = kk, true
+				}
+			}
+			switch {
+			case !found || !haveStart:
+				c.S.Undecided("R-C14-enumerate", k, c.Pos(c.InstrPos(in)), "index loop over the database table whose bounds are not constants: cannot be compared with the creator's range check")
+			case start == 0 && last == maxIdx:
+				c.S.OK("R-C14-enumerate", k, c.Pos(c.InstrPos(in)), fmt.Sprintf("index loop 0..%d agrees with the creator's range check", last))
+			default:
+				c.S.Bad("R-C14-enumerate", k, c.Pos(c.InstrPos(in)), fmt.Sprintf("%s enumerates the databases with an index loop %d..%d, but the creator admits 0..%d: some database is never visited (FLUSHALL / save skip it)", fnName(fn), start, last, maxIdx))
+			}
+		}
+	}
+	// range-based enumerations are complete by construction; count them for the record
+	nr := 0
+	for _, fn := range c.SrcFuncs() {
+		for _, in := range instrsOf(fn) {
+			if r, ok := in.(*ssa.Range); ok {
+				if _, f := loadedField(r.X); f == fDbs {
+					nr++
+					c.S.Trivial("R-C14-enumerate", fmt.Sprintf("%s:range#%d", fnName(fn), nr), c.Pos(r.Pos()), "range over the table")
+				}
+			}
+		}
+	}
+}
